@@ -75,9 +75,37 @@ func Catalogue(prop, tier string) []Cfg {
 		add(c)
 	}
 	switch prop {
-	case "C01", "C02", "C07", "C19":
+	case "C01", "C02", "C07":
 		prioCore()
 		scripts()
+	case "C19":
+		// every way of terminating, every discipline
+		prioCore()
+		for _, d := range []string{"v2", "s2", "v1", "s1"} {
+			c := pc(d, []uint{2, 1}, 2, "fair", []int{2}, []int{2, 1}, "rr", "")
+			c.Fault = true
+			add(c)
+		}
+		for _, stop := range []string{"stop", "cancel"} {
+			c := pc("v1", []uint{2, 1}, 2, "fair", []int{2}, []int{2}, "pool", "")
+			c.Stop = stop
+			add(c)
+			c = pc("s1", []uint{2, 1}, 2, "fair", []int{2}, []int{1, 1}, "", "")
+			c.Stop = stop
+			add(c)
+			add(Cfg{Harness: "join", Disc: "join1", J: 2, NoCopy: true, Cap: []int{1}, N: []int{4}, Stop: stop, Timeout: 4, Pauses: []int64{0, 5}, Delays: []int64{0, 5}, Bound: -1})
+		}
+		for _, disc := range []string{"join2", "unite2", "join1"} {
+			for _, nocopy := range []bool{false, true} {
+				c := Cfg{Harness: "join", Disc: disc, J: 2, NoCopy: nocopy, Cap: []int{1}, N: []int{4}, Timeout: 4, Pauses: []int64{0, 5}, Delays: []int64{0, 3}, Bound: -1}
+				if disc == "unite2" {
+					c.Lens = []int{0, 1, 2, 3}
+				}
+				add(c)
+			}
+		}
+		add(Cfg{Harness: "limit", Q: 2, I: 3, Cap: []int{1}, N: []int{5}, Pauses: []int64{0, 1}, Delays: []int64{0, 1}, Bound: -1})
+		add(Cfg{Harness: "limit", Q: 2, I: 3, Cap: []int{5}, N: []int{4}, Mode: "prefill", Bound: -1})
 	case "C05":
 		sat := func(disc string, p []uint, h uint, div string, r int, env string) {
 			for !accepted(p, h, div) {
@@ -331,6 +359,11 @@ func Catalogue(prop, tier string) []Cfg {
 				}
 				add(lc(q, 2, 1, int(2*q+1), []int64{0, 1, 2}, []int64{0, 1}, ""))
 				add(lc(q, 2, 0, int(2*q), []int64{0, 3}, []int64{0, 2}, ""))
+			}
+			// quantities at the top of the type: everything passes at once
+			for _, q := range []uint64{1 << 62, 1 << 63, 1<<63 + 1, 1<<64 - 1} {
+				add(lc(q, 3, 4, 3, nil, []int64{0}, "prefill"))
+				add(lc(q, 2, 0, 2, []int64{0, 1}, []int64{0, 1}, ""))
 			}
 			c := lc(2, 3, 1, 4, []int64{0, 1, 3}, []int64{0, 1}, "")
 			c.Late, c.Horizon = 1, 20
